@@ -162,6 +162,9 @@ class _OsProxy:
     def fsync(self, fd: int) -> None:
         if self._skip_fsync(fd):
             return
+        if self._t.mutate == "dir_fsync_eio" and self._m == "data_operations" and os.path.isdir(self._t.fds.get(fd, "")):
+            import errno
+            raise OSError(errno.EIO, "injected: directory fsync failed")     # fault variant (the library swallows it)
         os.fsync(fd)
         self._t.on_fsync(fd)
 
